@@ -415,3 +415,21 @@ func (c *Counter) Sum() int64 {
 
 // AtomicAdd adds to a shared counter.
 func AtomicAdd(p *int64, d int64) { atomic.AddInt64(p, d) }
+
+// Violations returns the violations recorded so far (used by side passes).
+func (r *Run) Violations() []Violation {
+	r.mu.Lock()
+	defer r.mu.Unlock()
+	out := []Violation{}
+	for _, sig := range r.order {
+		out = append(out, *r.viol[sig])
+	}
+	return out
+}
+
+// Samples returns the recorded samples.
+func (r *Run) Samples() []interface{} {
+	r.mu.Lock()
+	defer r.mu.Unlock()
+	return append([]interface{}{}, r.samples...)
+}
